@@ -250,3 +250,40 @@ _NEW = 'not old(allocated(r))'
 scope_fn.frame_except = {f'Scope.{f}': _NEW for f in FullScope.fields}
 scope_fn.defaults = {'mutable_filter': True}
 scope_fn.loop_heap = {1: list(FullScope.fields) + ['$alloc']}
+
+# ---- remat_scan hands the caller's lifting specification to scan unchanged (property C06) -------------------------
+RFilter = opaque('RngFilterKey', is_str=False, universe=['params', True])
+RFilter.coerce_bool = True
+SplitRngs = MapOf(RFilter, BOOL)
+VarSpec = opaque('VariableLiftSpec', is_str=False)
+Lengths = SeqOf(INT)
+Policy = opaque('RematPolicy', is_str=False, nullable=True)
+BodyFn = opaque('BodyFn', is_str=False)
+
+
+def _partial(ex, a, kw):
+  if isinstance(a[0], Handler) and a[0].name == 'scan':
+    ex.ghost['scan_calls'] = ex.ghost.get('scan_calls', 0) + 1
+    for k in ('variable_broadcast', 'variable_carry', 'variable_axes', 'split_rngs'):
+      ex.ghost['scan_' + k] = ex.deref(kw[k])
+  return Handler('partial', lambda ex2, a2, kw2: Handler('scanned', lambda ex3, a3, kw3: PyTuple((ex3.fresh(VarSpec, 'out'), PyTuple(()))), 'lifted scan of fn'), 'functools.partial(f, **kw)')
+
+
+RSB = {
+  'functools.partial': Handler('functools.partial', _partial, 'functools.partial: the keyword arguments bound for scan are recorded'),
+  'scan': Handler('scan', None, 'lift.scan'),
+  'remat': Handler('remat', None, 'lift.remat'),
+  'remat_scan': Handler('remat_scan', None, 'recursive call (only inside the nested closure, not executed)'),
+}
+remat_scan = function(
+  F + '::remat_scan',
+  params=[('body_fn', BodyFn), ('lengths', Lengths), ('policy', Policy), ('variable_broadcast', VarSpec), ('variable_carry', VarSpec),
+          ('variable_axes', VarSpec), ('split_rngs', SplitRngs)], returns=ANY,
+  requires=['len(lengths) >= 1'],
+  ensures=[
+    # which collections are broadcast / carried / scanned and which rng streams are split is exactly what the caller declared
+    "ghost('scan_variable_broadcast') == variable_broadcast and ghost('scan_variable_carry') == variable_carry and ghost('scan_variable_axes') == variable_axes",
+    "dom(ghost('scan_split_rngs')) == dom(split_rngs) and forall(RngFilterKey, lambda k: implies(k in split_rngs, ghost('scan_split_rngs')[k] == split_rngs[k]))",
+  ],
+  bindings=RSB, props=('C06',))
+remat_scan.locals = {'split_rngs': SplitRngs}
